@@ -395,7 +395,7 @@ var propStreams = map[string][]string{
 	"C07": {"BUILDER", "BHIST"},
 	"C08": {"SPARSE"},
 	"C09": {"COMPACT", "CHIST"},
-	"C10": {"SHARE", "COMPACT", "SPARSE"},
+	"C10": {"SHARE", "COMPACT", "SPARSE", "CHIST"},
 	"C11": {"COMPACT"},
 	"C12": {"BUILDER", "COMPACT", "CHIST", "BHIST"},
 	"C13": {"COUNTER", "ARITHLEN", "SPARSE", "BUILDER", "BHIST"},
